@@ -120,10 +120,16 @@ Inductive op :=
 | OInsHint (x : nat) (p : pos) (ka va : arg)
                                    (* Map,MultiMap::insert(position, key, value): p is the hint *)
 | OSort (x : nat)                  (* List::sort() *)
-| OInsVia (x : nat) (front : bool) (ka va : arg).
+| OInsVia (x : nat) (front : bool) (ka va : arg)
                                    (* front: List::prepend(v) / HashMap::prepend(k,v) / HashSet::prepend(k);
                                       back: List::append(v) / HashMap::append(k,v) / HashSet::append(k) /
                                       PoolMap::append(k) - the arguments may be the container's own elements *)
+| OInsTie (x : nat) (p : pos) (ka va : arg) (j : nat).
+                                   (* MultiMap::insert(position, key, value) in the case hint_tie (below): the new
+                                      element lands behind the hinted one, j places further on.  WHICH j - any place
+                                      that keeps the keys in order - is decided by the shape of the search tree
+                                      (C01), which this reference object does not know: j is an input, like the
+                                      answers of a kernel (the check takes it from the implementation's run) *)
 
 (* ---------------------------------------------------------------------------------------- *)
 (* pure list helpers (shared with the model)                                                  *)
@@ -288,13 +294,18 @@ Definition spec_sort (l : acont) : acont :=
    leaves open: in a MultiMap, when the hinted element's key is not greater than the new key and the
    element after it carries exactly the new key, the new element lands somewhere inside the run of
    equal keys that follows (where exactly depends on the shape of the search tree - C01).  Such a
-   call is not part of the histories considered here. *)
+   call is not an OInsHint; it is the operation OInsTie, which carries the landing offset as an
+   input and is accepted for every offset that keeps the keys in ascending order. *)
 Definition hint_tie (k : kind) (keys : list Z) (h : nat) (kz : Z) : bool :=
   negb (unique k) &&
   match nth_error keys h, nth_error keys (S h) with
   | Some hk, Some nk => Z.leb hk kz && Z.eqb nk kz
   | _, _ => false
   end.
+
+(* keys in ascending order, as a test *)
+Fixpoint ssortedb (l : list Z) : bool :=
+  match l with [] => true | a :: t => forallb (Z.leb a) t && ssortedb t end.
 
 (* what find returns: the index of the first element with that key / value *)
 Definition spec_found (s : sstate) (x : nat) (ka : arg) : option nat :=
@@ -449,6 +460,22 @@ Definition spec_step (s : sstate) (o : op) : bool * sstate :=
       | Some (k, l) => if can_sort k then (true, sset s x (Some (k, spec_sort l))) else (false, s)
       | None => (false, s)
       end
+  | OInsTie x p ka va j =>
+      match sget s x with
+      | Some (k, l) =>
+          if can_hint k then
+            match sarg_key s ka, sarg_val s va with
+            | Some kz, Some vz =>
+                (* only in the case OInsHint leaves open, and only to a place that keeps the keys in order *)
+                if hint_tie k (asel k l) (pos_idx p (length l)) kz &&
+                   ssortedb (insert_at (S (pos_idx p (length l)) + j) kz (asel k l))
+                then (true, sset s x (Some (k, insert_at (S (pos_idx p (length l)) + j) (mk_anode k kz vz) l)))
+                else (false, s)
+            | _, _ => (false, s)
+            end
+          else (false, s)
+      | None => (false, s)
+      end
   | OInsVia x f ka va =>
       match sget s x with
       | Some (k, l) =>
@@ -478,7 +505,7 @@ Definition writes (o : op) : list nat :=
   | ONew x _ | ODel x | OCopyNew x _ | OAssign x _ | OClear x | OIns x _ _ _ | ORemAt x _
   | ORemKey x _ | OAddAll x _ _ | ORemAll x _ | OReserve x _ | OResize x _ _
   | OAppendRange x _ _ _ | ORemVia _ x _ | ONewCap x _ _ | OFind x _ | OEmplace x _ | OAppendVals x _
-  | OInsHint x _ _ _ | OSort x | OInsVia x _ _ _ => [x]
+  | OInsHint x _ _ _ | OSort x | OInsVia x _ _ _ | OInsTie x _ _ _ _ => [x]
   | OSwap x y => [x; y]
   end.
 
@@ -497,6 +524,7 @@ Definition mentions (o : op) : list nat :=
   | OEmplace x args => x :: flat_map arg_vars args
   | OInsHint x _ ka va => x :: arg_vars ka ++ arg_vars va
   | OInsVia x _ ka va => x :: arg_vars ka ++ arg_vars va
+  | OInsTie x _ ka va _ => x :: arg_vars ka ++ arg_vars va
   end.
 
 (* "as if the argument had been copied first": a reference to an element becomes the value
@@ -533,6 +561,7 @@ Definition dealias (s : sstate) (t : nat) (o : op) : list op :=
   | OEmplace x args => [OEmplace x (map (dealias_val s) args)]
   | OInsHint x p ka va => [OInsHint x p (dealias_key s ka) (dealias_val s va)]
   | OInsVia x f ka va => [OInsVia x f (dealias_key s ka) (dealias_val s va)]
+  | OInsTie x p ka va j => [OInsTie x p (dealias_key s ka) (dealias_val s va) j]
   | _ => [o]
   end.
 
